@@ -28,6 +28,7 @@ CONFIGS = {
     "K3-sse41": (["--no-default-features"], "-Ctarget-feature=+ssse3,+sse4.1"),
     "K3-avx": (["--no-default-features"], "-Ctarget-feature=+ssse3,+sse4.1,+avx"),
     "K3-avx2": (["--no-default-features"], "-Ctarget-feature=+ssse3,+sse4.1,+avx,+avx2"),
+    "CONTROLS": ([], ""),
 }
 
 
@@ -47,7 +48,8 @@ def repo_hash():
                 pass
     # the extractor and fixture are part of the key
     for p in (os.path.join(VERIF, "factgen/src/walk.rs"), os.path.join(VERIF, "factgen/src/main.rs"),
-              os.path.join(VERIF, "fixtures/roots/src/lib.rs"), os.path.join(VERIF, "fixtures/roots/Cargo.toml")):
+              os.path.join(VERIF, "fixtures/roots/src/lib.rs"), os.path.join(VERIF, "fixtures/roots/Cargo.toml"),
+              os.path.join(VERIF, "fixtures/controls/src/lib.rs")):
         with open(p, "rb") as fh:
             h.update(fh.read())
     return h.hexdigest()[:20]
@@ -95,10 +97,13 @@ def extract(config):
     args, flags = CONFIGS[config]
     env = dict(os.environ)
     env["EXTRA_RUSTFLAGS"] = flags
+    if config == "CONTROLS":
+        env["FIXTURE"] = "controls"
     t0 = time.time()
     r = subprocess.run([os.path.join(VERIF, "engine/extract.sh"), tmp] + args, env=env,
                        capture_output=True, text=True)
-    if r.returncode != 0 or not os.path.exists(os.path.join(tmp, "verif_roots.json")):
+    main_file = "verif_controls.json" if config == "CONTROLS" else "verif_roots.json"
+    if r.returncode != 0 or not os.path.exists(os.path.join(tmp, main_file)):
         log = ""
         try:
             log = open(os.path.join(tmp, "cargo.log")).read()[-3000:]
